@@ -112,6 +112,138 @@ CRITERIA = [
 ]
 
 
+# ---- simulator family: the wall-clock part of the criterion is rewritten onto simulated time (SimulatorCallback), every other
+# ---- part of the user's criterion must keep deciding exactly as the user wrote it
+SIM_FIELDS = [
+    ("max_num_evaluations", 5), ("max_num_trials_started", 3), ("max_num_trials_completed", 1), ("max_num_trials_finished", 2),
+    ("max_cost", 6.0), ("min_metric_value", {"loss": 1.0}), ("max_metric_value", {"loss": 20.0}),
+]
+
+
+def sim_snapshot(tuner):
+    d = snapshot(tuner)
+    d["simtime"] = tuner.trial_backend.time_keeper.time()
+    return d
+
+
+def sim_build_factory(cfg):
+    def build(chooser, log):
+        from syne_tune import Tuner, StoppingCriterion
+        from syne_tune.blackbox_repository import UserBlackboxBackend
+        from syne_tune.backend.simulator_backend.simulator_callback import SimulatorCallback
+        from syne_tune.backend.simulator_backend.time_keeper import SimulatedTimeKeeper
+        from .c10 import make_blackbox
+        import syne_tune.tuning_status as tsmod
+        LogicalClock.t = 0.0
+        tsmod.time = LogicalClock      # real time plays no role in a simulated run: frozen
+
+        bb, cs, rows, obj = make_blackbox(3, 1, cfg["R"], "monotone")
+
+        class OwnTimeKeeper(SimulatedTimeKeeper):
+            def real_time_since_last_recent_exit(self):
+                self._assert_has_started()
+                return 0.0
+
+        class SimBackend(UserBlackboxBackend):
+            def _schedule(self, trial_id, config):
+                super()._schedule(trial_id, config)
+                log.append(("schedule", trial_id, 0))
+
+        backend = SimBackend(blackbox=bb, elapsed_time_attr="time", max_resource_attr="epochs" if cfg["mra"] else None, seed=0,
+                             tuner_sleep_time=cfg["sleep"])
+        backend._time_keeper = OwnTimeKeeper()
+        sched, info = scheds.make(cfg["kind"], mode="min", seed=cfg["seed"], R=cfg["R"], mra=cfg["mra"], space=cs, metric="loss",
+                                  allow_duplicates=True, set_tk=False)
+        rec = tunerx.make_recorder_callback(log, loop_cap=cfg.get("loop_cap", 400), extra=sim_snapshot)
+        user_crit = StoppingCriterion(**cfg["stop"])
+        tuner = Tuner(trial_backend=backend, scheduler=sched, stop_criterion=user_crit, n_workers=cfg["W"], sleep_time=0,
+                      callbacks=[rec, SimulatorCallback()], save_tuner=False, suffix_tuner_name=False, tuner_name="verif-c12s",
+                      max_failures=3)
+        return dict(tuner=tuner, backend=backend, scheduler=sched, user_crit=user_crit)
+    return build
+
+
+def sim_check(ex, cfg):
+    """Independent reading of the user's criterion at every loop end; its wall-clock part is read on the simulated time stamps of
+    the results handed to the loop (the documented translation); nothing may start, and no iteration may begin, after the
+    first iteration at whose end it held; the run may not end earlier."""
+    from syne_tune.constants import ST_TUNER_TIME
+    v = []
+    stop = cfg["stop"]
+    other = {k: x for k, x in stop.items() if k != "max_wallclock_time"}
+    T = stop.get("max_wallclock_time")
+    own_min, own_max = {}, {}
+    first_hold, why = None, None
+    loops = 0
+    for e in ex.log:
+        k = e[0]
+        if k == "fetch":
+            for _t, res_ in e[2]:
+                for name_, val_ in res_.items():
+                    if isinstance(val_, (int, float)) and not isinstance(val_, bool) and val_ == val_:
+                        own_min[name_] = min(own_min.get(name_, val_), val_)
+                        own_max[name_] = max(own_max.get(name_, val_), val_)
+        elif k == "loop_start":
+            loops = e[1]
+            if first_hold is not None and loops == first_hold + 1:
+                v.append((f"sim:loop-continues-after-criterion:{why}", f"user criterion {stop} held at the end of iteration {first_hold} "
+                          f"({why}), iteration {loops} started nevertheless"))
+        elif k == "loop_end" and first_hold is None and e[2] is not None:
+            snap = dict(e[2], min=dict(own_min), max=dict(own_max))
+            if monitors.crit_holds(other, snap, 3):
+                first_hold = e[1]
+                why = "+".join(sorted(f for f in other if monitors.crit_holds({f: other[f]}, snap, 10 ** 9))) or "failures"
+            elif T is not None and own_max.get(ST_TUNER_TIME, float("-inf")) > T:
+                first_hold, why = e[1], "max_wallclock_time"
+        elif k == "schedule" and first_hold is not None:
+            v.append((f"sim:start-after-criterion:{why}", f"trial {e[1]} started after iteration {first_hold}, at whose end the user's "
+                      f"criterion {stop} held ({why})"))
+    exc = ex.exc
+    if exc is not None and exc[0] == "LoopCap":
+        if first_hold is not None:
+            v.append((f"sim:does-not-terminate:{why}", f"still looping after {loops} iterations, criterion held at {first_hold}"))
+    elif exc is not None:
+        v.append((f"exc:{exc[0]}@{exc[1]}", f"{exc[0]} escaped Tuner.run at {exc[1]}: {exc[2]}"))
+    elif first_hold is None:
+        v.append(("sim:ended-before-criterion", f"Tuner.run returned after {loops} iterations although the user's criterion {stop} "
+                                                f"never held"))
+    if exc is None and ex.tuner.stop_criterion is not ex.extra["user_crit"] and T is not None:
+        v.append(("sim:user-criterion-not-restored", "after run() the tuner does not carry the user's StoppingCriterion object"))
+    return v
+
+
+def sim_task(cfg):
+    return tunerx.explore(sim_build_factory(cfg), lambda ex: sim_check(ex, cfg), PROP, dict(cfg, family="sim"), bound=0,
+                          max_exec=1, loop_cap=cfg.get("loop_cap", 400), ctx="sim/" + cfg["kind"] + "/" + "+".join(sorted(cfg["stop"])),
+                          state_of=lambda ex: [(sum(1 for e in ex.log if e[0] == "schedule"),
+                                                sum(1 for e in ex.log if e[0] == "loop_start"))])
+
+
+def sim_configs(tier, seed):
+    """every subset of at most two non-wall-clock fields, alone and together with a wall-clock limit that never / first holds"""
+    import itertools
+    out = []
+    subsets = [()] + [(f,) for f in SIM_FIELDS] + list(itertools.combinations(SIM_FIELDS, 2))
+    kinds = ("fifo-random", "hb-stopping", "hb-promotion")
+    for si, sub in enumerate(subsets):
+        for T in (None, 1000.0, 4.5):
+            if not sub and T != 4.5:
+                continue
+            for ki, kind in enumerate(kinds):
+                for W in (1, 2):
+                    if tier == "quick" and (si + ki + W + seed) % 3 != 0 and len(sub) == 2:
+                        continue
+                    stop = {k: x for k, x in sub}
+                    if T is not None:
+                        stop["max_wallclock_time"] = T
+                    if set(stop) <= {"max_num_trials_completed"} | ({"max_wallclock_time"} if T == 1000.0 else set()) \
+                            and kind != "fifo-random":
+                        continue   # early-stopping schedulers let (almost) no trial complete: the criterion would never hold
+                    out.append(dict(kind=kind, W=W, R=3, seed=seed, stop=stop, mra=(si + W) % 2 == 0,
+                                    sleep=0.1 if (si + ki) % 2 else 1.0, loop_cap=3000, profile="sim"))
+    return out
+
+
 def configs(tier, seed):
     out = []
     kinds = ["fifo-random", "hb-stopping", "hb-promotion", "shb", "pbt", "fifo-grid"]
@@ -180,6 +312,11 @@ def run(tier, seed):
     for cov, viols in pmap(task, cfgs):
         res.cov.merge(cov)
         res.violations.extend(viols)
+    scfgs = sim_configs(tier, seed)
+    for cov, viols in pmap(sim_task, scfgs):
+        res.cov.merge(cov)
+        res.violations.extend(viols)
+    res.cov.extra["simulator_criterion_runs"] = len(scfgs)
     res.rule = ("Stateless deviation-bounded exploration of the real Tuner.run over ScriptedBackend for every StoppingCriterion field "
                 "(thresholds flipping at the first / a middle iteration / never) and pairs x scheduler x n_workers x "
                 "wait_trial_completion x (a)synchronous scheduling x failures vs max_failures x scheduler exceptions injected at "
@@ -196,6 +333,11 @@ def run(tier, seed):
 
 def replay(data):
     cfg = dict(data["cfg"])
+    if cfg.get("family") == "sim":
+        ex = tunerx.run_tuner(sim_build_factory(cfg), tunerx.Chooser(data["choices"]), cfg.get("loop_cap", 400))
+        out = [Violation(PROP, k, w) for k, w in sim_check(ex, cfg)]
+        tunerx.clean_scratch()
+        return out
     prof = cfg["profile"]
     if isinstance(prof, str):
         b, r, l = prof.split("/")
